@@ -33,6 +33,8 @@ type dInput struct {
 	deadline   int // 0 none 1 past 2 future
 	cancel     int // 0 never 1 before dispatch 2 in fetch 3 during work
 	work       int // 0 return nil 1 return error 2 panic 3 block
+	// the dispatch context carries a deadline of its own, later than any task deadline: nothing the model says depends on it
+	dctxLater bool
 }
 
 func (i dInput) term() string {
@@ -69,6 +71,11 @@ func classifyResult(v error) string {
 func runProto(in dInput) string {
 	ctx, cancel := context.WithCancel(context.Background())
 	defer cancel()
+	if in.dctxLater {
+		var c2 context.CancelFunc
+		ctx, c2 = context.WithDeadline(ctx, time.Now().Add(3*time.Hour))
+		defer c2()
+	}
 	var mu sync.Mutex
 	ran := false
 	seen := "CENone"
@@ -448,7 +455,7 @@ func dispMain(args []string) {
 				for dl := 0; dl < 3; dl++ {
 					for c := 0; c < 4; c++ {
 						for w := 0; w < 4; w++ {
-							in := dInput{f, reg, dl, c, w}
+							in := dInput{f, reg, dl, c, w, false}
 							if in.wf() {
 								ins = append(ins, in)
 							}
@@ -461,6 +468,10 @@ func dispMain(args []string) {
 		for rep := 0; rep < *n; rep++ {
 			r.Shuffle(len(ins), func(i, j int) { ins[i], ins[j] = ins[j], ins[i] })
 			for _, in := range ins {
+				in.dctxLater = rep%2 == 1
+				if in.dctxLater {
+					stats["proto:dispatch-ctx-with-later-deadline"]++
+				}
 				c := "(mkDC " + in.term() + " " + runProto(in) + ")"
 				cases = append(cases, c)
 				hashes = append(hashes, shortHash(in.term()))
